@@ -15,12 +15,15 @@ import (
 	"bytes"
 	"reflect"
 	"sync"
+	"sync/atomic"
 )
 
 // Hook is installed by the simulator.
 type Hook interface {
 	Acquire(m *RWMutex, write bool)
 	Release(m *RWMutex, write bool)
+	// Yield is a plain decision point: the scheduler may run another task before the caller continues.
+	Yield(label string)
 }
 
 // H is the installed hook (nil: plain behaviour).
@@ -163,4 +166,90 @@ func scribble(x any) int {
 		}
 	}
 	return n
+}
+
+// ---------------------------------------------------------------- atomics
+
+// The Atomic* types stand in for the sync/atomic types of the same name in the scratch copy: each
+// operation is first a decision point of the scheduler, then the real atomic operation (so the race
+// detector keeps seeing the synchronisation it provides).
+
+func yieldPoint(label string) {
+	if H != nil {
+		H.Yield(label)
+	}
+}
+
+type AtomicPointer[T any] struct{ p atomic.Pointer[T] }
+
+func (a *AtomicPointer[T]) Load() *T     { yieldPoint("atomic.Load"); return a.p.Load() }
+func (a *AtomicPointer[T]) Store(v *T)   { yieldPoint("atomic.Store"); a.p.Store(v) }
+func (a *AtomicPointer[T]) Swap(v *T) *T { yieldPoint("atomic.Swap"); return a.p.Swap(v) }
+func (a *AtomicPointer[T]) CompareAndSwap(old, new *T) bool {
+	yieldPoint("atomic.CompareAndSwap")
+	return a.p.CompareAndSwap(old, new)
+}
+
+type AtomicValue struct{ v atomic.Value }
+
+func (a *AtomicValue) Load() any      { yieldPoint("atomic.Load"); return a.v.Load() }
+func (a *AtomicValue) Store(v any)    { yieldPoint("atomic.Store"); a.v.Store(v) }
+func (a *AtomicValue) Swap(v any) any { yieldPoint("atomic.Swap"); return a.v.Swap(v) }
+func (a *AtomicValue) CompareAndSwap(old, new any) bool {
+	yieldPoint("atomic.CompareAndSwap")
+	return a.v.CompareAndSwap(old, new)
+}
+
+type AtomicInt64 struct{ v atomic.Int64 }
+
+func (a *AtomicInt64) Load() int64        { yieldPoint("atomic.Load"); return a.v.Load() }
+func (a *AtomicInt64) Store(v int64)      { yieldPoint("atomic.Store"); a.v.Store(v) }
+func (a *AtomicInt64) Add(d int64) int64  { yieldPoint("atomic.Add"); return a.v.Add(d) }
+func (a *AtomicInt64) Swap(v int64) int64 { yieldPoint("atomic.Swap"); return a.v.Swap(v) }
+func (a *AtomicInt64) CompareAndSwap(old, new int64) bool {
+	yieldPoint("atomic.CompareAndSwap")
+	return a.v.CompareAndSwap(old, new)
+}
+
+type AtomicInt32 struct{ v atomic.Int32 }
+
+func (a *AtomicInt32) Load() int32        { yieldPoint("atomic.Load"); return a.v.Load() }
+func (a *AtomicInt32) Store(v int32)      { yieldPoint("atomic.Store"); a.v.Store(v) }
+func (a *AtomicInt32) Add(d int32) int32  { yieldPoint("atomic.Add"); return a.v.Add(d) }
+func (a *AtomicInt32) Swap(v int32) int32 { yieldPoint("atomic.Swap"); return a.v.Swap(v) }
+func (a *AtomicInt32) CompareAndSwap(old, new int32) bool {
+	yieldPoint("atomic.CompareAndSwap")
+	return a.v.CompareAndSwap(old, new)
+}
+
+type AtomicUint64 struct{ v atomic.Uint64 }
+
+func (a *AtomicUint64) Load() uint64         { yieldPoint("atomic.Load"); return a.v.Load() }
+func (a *AtomicUint64) Store(v uint64)       { yieldPoint("atomic.Store"); a.v.Store(v) }
+func (a *AtomicUint64) Add(d uint64) uint64  { yieldPoint("atomic.Add"); return a.v.Add(d) }
+func (a *AtomicUint64) Swap(v uint64) uint64 { yieldPoint("atomic.Swap"); return a.v.Swap(v) }
+func (a *AtomicUint64) CompareAndSwap(old, new uint64) bool {
+	yieldPoint("atomic.CompareAndSwap")
+	return a.v.CompareAndSwap(old, new)
+}
+
+type AtomicUint32 struct{ v atomic.Uint32 }
+
+func (a *AtomicUint32) Load() uint32         { yieldPoint("atomic.Load"); return a.v.Load() }
+func (a *AtomicUint32) Store(v uint32)       { yieldPoint("atomic.Store"); a.v.Store(v) }
+func (a *AtomicUint32) Add(d uint32) uint32  { yieldPoint("atomic.Add"); return a.v.Add(d) }
+func (a *AtomicUint32) Swap(v uint32) uint32 { yieldPoint("atomic.Swap"); return a.v.Swap(v) }
+func (a *AtomicUint32) CompareAndSwap(old, new uint32) bool {
+	yieldPoint("atomic.CompareAndSwap")
+	return a.v.CompareAndSwap(old, new)
+}
+
+type AtomicBool struct{ v atomic.Bool }
+
+func (a *AtomicBool) Load() bool       { yieldPoint("atomic.Load"); return a.v.Load() }
+func (a *AtomicBool) Store(v bool)     { yieldPoint("atomic.Store"); a.v.Store(v) }
+func (a *AtomicBool) Swap(v bool) bool { yieldPoint("atomic.Swap"); return a.v.Swap(v) }
+func (a *AtomicBool) CompareAndSwap(old, new bool) bool {
+	yieldPoint("atomic.CompareAndSwap")
+	return a.v.CompareAndSwap(old, new)
 }
